@@ -1012,6 +1012,13 @@ class Sim(FAM.FamilyMixin):
             self.inc("probe.masked_lhs_unmasked_rhs")
             if h.ulen == n:
                 self.inc("probe.masked_lhs_full_mask")
+        if rhs == "unmasked" and not bad and got[0] == "exc" and h.ulen != n:
+            # an operand as long as the array the masked reference was taken from is accepted today (documented
+            # non-strict match) and then selects through the mask; the property does not demand that it be accepted:
+            # a refusal changes nothing
+            self.inc("outcome.raised")
+            self.h.update(b"exc")
+            return
         self.expect(got, bad, "a %s= %s (length %d, writable %s)" % ("+" if name == "__iadd__" else "-", rhs, n, h.writable))
         if not bad:
             if h.masked:
